@@ -191,6 +191,8 @@ def run(tier, seed, rep):
     wd = core.workdir("progs_" + PROP)
     jobs = []
     for E, derives, std in pairs:
+        if core.only_defs() is not None and E["id"] not in core.only_defs():
+            continue
         for cfg in CONFIGS:
             jobs.append((E, derives, std, cfg))
 
